@@ -51,6 +51,9 @@ func c14Corpus(c *Check) []c14Prog {
 		c14Prog{"twin-c", map[string]string{"main.tsh": "import l \"lib.tsh\"\n\nprint(l.Get7(), l.Twice7(2))\n", "lib.tsh": lib(7) + "x := 1 + \"a\"\n"}},
 		c14Prog{"twin-deep-a", map[string]string{"main.tsh": "import l \"mid.tsh\"\n\nprint(l.Mid())\n", "mid.tsh": "import b \"base.tsh\"\n\nfunc Mid() int {\n\treturn b.Get8()\n}\n", "base.tsh": lib(8)}},
 		c14Prog{"twin-deep-b", map[string]string{"main.tsh": "import l \"mid.tsh\"\n\nprint(l.Mid())\n", "mid.tsh": "import b \"base.tsh\"\n\nfunc Mid() int {\n\treturn b.Get8()\n}\n", "base.tsh": strings.Replace(lib(8), "return 8", "return 80", 1)}},
+		// two different files with identical bytes imported side by side (their names share one prefix)
+		c14Prog{"twin-files", map[string]string{"main.tsh": "import (\n\ta \"a/counter.tsh\"\n\tb \"b/counter.tsh\"\n)\n\nprint(a.Next(), a.Next(), b.Next())\n", "a/counter.tsh": "count := 0\nfunc Next() int {\n\tcount++\n\treturn count\n}\n", "b/counter.tsh": "count := 0\nfunc Next() int {\n\tcount++\n\treturn count\n}\n"}},
+		c14Prog{"twin-files-nested", map[string]string{"main.tsh": "import (\n\tx \"p/mod.tsh\"\n\ty \"q/r/mod.tsh\"\n)\n\nprint(x.Get(), y.Get())\n", "p/mod.tsh": "import u \"util.tsh\"\n\nfunc Get() int {\n\treturn u.One() + 1\n}\n", "p/util.tsh": "func One() int {\n\treturn 1\n}\n", "q/r/mod.tsh": "import u \"util.tsh\"\n\nfunc Get() int {\n\treturn u.One() + 1\n}\n", "q/r/util.tsh": "func One() int {\n\treturn 1\n}\n"}},
 		// programs that fail late, in the converter, after every kind of construct has been emitted (state
 		// built up during a failed call must not leak into the next call on the same object)
 		c14Prog{"multi-values", map[string]string{"main.tsh": c14Rich + "print(\"end\")\n"}},
@@ -127,7 +130,7 @@ func shaOf(s string) string {
 }
 
 func checkC14(c *Check) {
-	c.Rule = "event log {process, history, step, tree location, program, target} -> sha256(script) | error, checked offline: for each (program, target) all hashes must be equal. Histories: every ordered pair of (program, target) calls on one transpiler object, random histories of 3-15 calls on one object (fresh converter per call), edit histories (the tree under one path is overwritten between calls on one object with programs that share the main file's bytes but not the imports'), the whole corpus in N fresh processes (different map seeds), in 3 relocated copies of the source tree (deep path, path with blanks, relative path with another cwd); secondary monitor: the Converter-boundary call trace of a recording wrapper must be identical for identical (program, target). Non-trivial = an observation of a program that transpiles successfully; distinct = (history, step)"
+	c.Rule = "event log {process, history, step, tree location, program, target} -> sha256(script) | error, checked offline: for each (program, target) all hashes must be equal. Histories: every ordered pair of (program, target) calls on one transpiler object, random histories of 3-15 calls on one object (fresh converter per call), edit histories (the tree under one path is overwritten between calls on one object with programs that share the main file's bytes but not the imports'), the whole corpus in N fresh processes (different map seeds), in 3 relocated copies of the source tree (deep path, path with blanks, relative path with another cwd), through the tsh command in five target orders; secondary monitor: the Converter-boundary call trace of a recording wrapper must be identical for identical (program, target). Non-trivial = an observation of a program that transpiles successfully; distinct = (history, step)"
 	c.Assumptions = []string{"a fresh converter per Transpile call, as the anchor states the contract", "error texts may contain paths: for failing programs only 'is an error' is compared"}
 	corpus := c14Corpus(c)
 	root := filepath.Join(scratch(), "c14")
@@ -283,6 +286,77 @@ func checkC14(c *Check) {
 			shaW := extractJSONField(string(out), "batch")
 			record(c14Event{"relproc", "relative-path", i, "blank-relative", p.name, Bash, shaB.sha, shaB.isErr, ""})
 			record(c14Event{"relproc", "relative-path", i, "blank-relative", p.name, Batch, shaW.sha, shaW.isErr, ""})
+		}
+	}
+	// 5b. the tsh command as one more process kind: one invocation per target order (single targets, both orders,
+	// a repeated target); every file it writes is one more observation of (program, target)
+	{
+		exe, _ := os.Executable()
+		tsh := filepath.Join(filepath.Dir(exe), "tsh")
+		if _, err := os.Stat(tsh); err == nil {
+			orders := [][]Target{{Bash}, {Batch}, {Bash, Batch}, {Batch, Bash}, {Bash, Batch, Bash}}
+			type tj struct {
+				pi, oi int
+			}
+			tjobs := []tj{}
+			for pi := range corpus {
+				for oi := range orders {
+					tjobs = append(tjobs, tj{pi, oi})
+				}
+			}
+			// a program that fails for some target ends the process at that target: it is observed through the
+			// single-target invocations only
+			failsAny := make([]bool, len(corpus))
+			for pi, p := range corpus {
+				for _, t := range targets {
+					func() {
+						defer func() {
+							if r := recover(); r != nil {
+								failsAny[pi] = true
+							}
+						}()
+						tr := transpiler.New()
+						if _, err := tr.Transpile(mainOf("home", p), newConverter(t)); err != nil {
+							failsAny[pi] = true
+						}
+					}()
+				}
+			}
+			parallelDo(len(tjobs), 16, func(k int) {
+				p := corpus[tjobs[k].pi]
+				ord := orders[tjobs[k].oi]
+				if failsAny[tjobs[k].pi] && len(ord) > 1 {
+					return
+				}
+				outDir := filepath.Join(root, fmt.Sprintf("tshout-%d-%d", tjobs[k].pi, tjobs[k].oi))
+				os.MkdirAll(outDir, 0o755)
+				args := []string{"-i", mainOf("home", p), "-o", outDir}
+				for _, t := range ord {
+					args = append(args, "-t", string(t))
+				}
+				cmd := exec.Command(tsh, args...)
+				cmd.Run()
+				seenT := map[Target]bool{}
+				for _, t := range ord {
+					if seenT[t] {
+						continue
+					}
+					seenT[t] = true
+					ext := ".sh"
+					if t == Batch {
+						ext = ".bat"
+					}
+					data, err := os.ReadFile(filepath.Join(outDir, "main"+ext))
+					hist := fmt.Sprintf("tsh/order=%d", tjobs[k].oi)
+					if err != nil {
+						record(c14Event{"tsh", hist, tjobs[k].pi, "home", p.name, t, "no-file", true, ""})
+					} else {
+						record(c14Event{"tsh", hist, tjobs[k].pi, "home", p.name, t, shaOf(string(data)), false, ""})
+					}
+				}
+			})
+		} else {
+			c.Inconclusive("tsh binary not built; command-level observations skipped")
 		}
 	}
 	// 6. (thorough) the same corpus transpiled concurrently under the race detector
